@@ -379,7 +379,7 @@ inline RunResult run_chunks(const Ctx &ctx, const std::string &label, uint64_t t
 inline int run_isolated(const std::function<void()> &fn, double timeout, size_t asBytes = (size_t)6 << 30) {
   fflush(stdout); fflush(stderr);
   pid_t p = fork();
-  if (p == 0) { child_limits(asBytes); fn(); _exit(0); }
+  if (p == 0) { setvbuf(stdout, nullptr, _IOLBF, 0); child_limits(asBytes); fn(); fflush(stdout); _exit(0); }
   double t0 = now();
   int status;
   while (true) {
